@@ -523,3 +523,5 @@ def check(run, prog):
     rule_long_constants(run, prog)           # R-11.8
     from .c11_termination import rule_literal_context
     rule_literal_context(run, prog)          # R-11.9
+    from .c11_numeric import rule_numeric_families
+    rule_numeric_families(run, prog)         # R-11.10
